@@ -206,18 +206,33 @@ Theorem C09_catch_up_index_wf : forall l a b rest, l = a :: b :: rest -> log_wf 
 Proof. exact catch_up_index_wf. Qed.
 Print Assumptions C09_catch_up_index_wf.
 
-Theorem C09_stale_cursor_after_leader_change :
-  exists g1 n1 n3 g n3',
-    run_trace cz ginit (firstn 88 stale_cursor_trace) = Some g1 /\
-    aget 1 (nodes g1) = Some n1 /\ aget 3 (nodes g1) = Some n3 /\
-    role n1 = LEADER /\ term n1 = 3 /\
-    map (fun kv => (fst kv, snd (snd kv))) (trans (sr n1)) = [(3, 8)] /\
-    option_map (map (fun p => (match fst (fst p) with Good s => eidx (s_e0 s) | Corrupt _ => 0 end,
-                                snd (fst p), snd p))) (incoming (sr n3)) = Some [(4, 0, 4); (4, 4, 4)] /\
-    run_trace cz ginit stale_cursor_trace = Some g /\ aget 3 (nodes g) = Some n3' /\
-    stored (sr n3') = Some (Corrupt 9) /\ applied n3' = 1 /\ map eidx (log n3') = [1].
-Proof. exact stale_cursor_after_leader_change. Qed.
-Print Assumptions C09_stale_cursor_after_leader_change.
+Theorem C09_become_leader_cancels_transmissions : forall e s x,
+  asorted (trans (sr (nd s))) ->
+  In x (sunion (others (nd s)) (readonly (nd s))) ->
+  let s1 := become_leader_pre e s in
+  aget x (trans (sr (nd s1))) = None /\ asorted (trans (sr (nd s1))) /\
+  pid (sr (nd s1)) = pid (sr (nd s)) /\ stored (sr (nd s1)) = stored (sr (nd s)) /\
+  forall b, pid (sr (nd s)) = 0 -> stored (sr (nd s)) = Some b ->
+    snd (get_transmission e x s1) =
+      SData b 0 (N.min (chunk (cf e)) (blob_len b)) true (N.min (chunk (cf e)) (blob_len b) =? 0).
+Proof. exact become_leader_cancels. Qed.
+Print Assumptions C09_become_leader_cancels_transmissions.
+
+Theorem C09_become_leader_split : forall e s,
+  become_leader e s = ((if use_batch (cf e) then (fun s => s) else send_ae e) ;; send_ae e) (become_leader_pre e s).
+Proof. exact become_leader_split. Qed.
+Print Assumptions C09_become_leader_split.
+
+Theorem C09_other_destination_keeps_no_cursor : forall e y x s, y <> x -> aget x (trans (sr (nd s))) = None ->
+  aget x (trans (sr (nd (fst (get_transmission e y s))))) = None.
+Proof. exact get_transmission_other. Qed.
+Print Assumptions C09_other_destination_keeps_no_cursor.
+
+Theorem C09_inflight_loss_splices :
+  exists g n3, run_trace cz ginit inflight_loss_trace = Some g /\ aget 3 (nodes g) = Some n3 /\
+    stored (sr n3) = Some (Corrupt 5) /\ applied n3 = 1 /\ map eidx (log n3) = [1].
+Proof. exact inflight_loss_splices. Qed.
+Print Assumptions C09_inflight_loss_splices.
 
 Theorem C09_stored_snapshot_never_corrupt_refuted : ~ C09_stored_snapshot_never_corrupt_full.
 Proof. exact stored_snapshot_never_corrupt_refuted. Qed.
